@@ -1,0 +1,190 @@
+// Copyright 2025 The Go Authors. All rights reserved.
+// Use of this source code is governed by a BSD-style
+// license that can be found in the LICENSE file.
+
+//go:build verif
+
+package http2
+
+// Contracts, spec functions and lemma harnesses for the deductive verifier in /verif (govc).
+// This file is compiled only with -tags verif; it adds no behaviour to the package.
+
+// ---------------------------------------------------------------------------
+// flow.go: receive windows (properties C10, C11) and send windows (C08, C09)
+
+// inflowOK is the representation invariant of a receive window: both parts are
+// non-negative and the advertised total never exceeds 2^31-1.
+//
+//@ pure
+func inflowOK(avail, unsent int32) bool {
+	return avail >= 0 && unsent >= 0 && int64(avail)+int64(unsent) <= 1<<31-1
+}
+
+// credit is the total receive credit of a window: what the peer may still send plus what
+// has been consumed locally but not yet re-advertised.
+//
+//@ pure
+func credit(avail, unsent int32) int64 { return int64(avail) + int64(unsent) }
+
+//@ func (*inflow).init(f, n)
+//@   requires f != nil && n >= 0 && f.unsent == 0
+//@   ensures  f.avail == n && inflowOK(f.avail, f.unsent)
+//@   modifies f.avail
+//@
+//@ func (*inflow).add(f, n) (connAdd)
+//@   requires f != nil && inflowOK(f.avail, f.unsent)
+//@   requires n >= 0 && n <= 1<<31-1 && int64(n) + credit(f.avail, f.unsent) <= 1<<31-1
+//@   ensures  inflowOK(f.avail, f.unsent)
+//@   ensures  credit(f.avail, f.unsent) == credit(old(f.avail), old(f.unsent)) + int64(n)
+//@   ensures  connAdd == f.avail - old(f.avail) && connAdd >= 0
+//@   ensures  connAdd == 0 <==> ((int64(old(f.unsent)) + int64(n) < inflowMinRefresh && int64(old(f.unsent)) + int64(n) < int64(old(f.avail))) || int64(old(f.unsent)) + int64(n) == 0)
+//@   modifies f.avail, f.unsent
+//@
+//@ func (*inflow).take(f, n) (ok)
+//@   requires f != nil && inflowOK(f.avail, f.unsent)
+//@   ensures  ok <==> int64(n) <= int64(old(f.avail))
+//@   ensures  ok ==> f.avail == old(f.avail) - int32(n)
+//@   ensures  !ok ==> f.avail == old(f.avail)
+//@   ensures  inflowOK(f.avail, f.unsent)
+//@   modifies f.avail
+//@
+//@ func takeInflows(f1, f2, n) (ok)
+//@   requires f1 != nil && f2 != nil && f1 != f2 && inflowOK(f1.avail, f1.unsent) && inflowOK(f2.avail, f2.unsent)
+//@   ensures  ok <==> (int64(n) <= int64(old(f1.avail)) && int64(n) <= int64(old(f2.avail)))
+//@   ensures  ok ==> f1.avail == old(f1.avail) - int32(n) && f2.avail == old(f2.avail) - int32(n)
+//@   ensures  !ok ==> f1.avail == old(f1.avail) && f2.avail == old(f2.avail)
+//@   ensures  inflowOK(f1.avail, f1.unsent) && inflowOK(f2.avail, f2.unsent)
+//@   modifies f1.avail, f2.avail
+//@
+//@ func (*outflow).setConnFlow(f, cf)
+//@   requires f != nil
+//@   ensures  f.conn == cf
+//@   modifies f.conn
+//@
+//@ func (*outflow).available(f) (r)
+//@   requires f != nil
+//@   ensures  f.conn == nil ==> r == f.n
+//@   ensures  f.conn != nil ==> r == min(f.n, f.conn.n)
+//@
+//@ func (*outflow).take(f, n)
+//@   requires f != nil && f.conn != f
+//@   requires n <= f.n && (f.conn != nil ==> n <= f.conn.n)
+//@   ensures  f.n == old(f.n) - n
+//@   ensures  f.conn != nil ==> f.conn.n == old(f.conn.n) - n
+//@   ensures  f.conn == old(f.conn)
+//@   modifies f.n, f.conn.n
+//@
+//@ func (*outflow).add(f, n) (ok)
+//@   requires f != nil
+//@   ensures  ok <==> (-(1<<31) <= int64(old(f.n)) + int64(n) && int64(old(f.n)) + int64(n) <= 1<<31-1)
+//@   ensures  ok ==> f.n == old(f.n) + n
+//@   ensures  !ok ==> f.n == old(f.n)
+//@   modifies f.n
+
+// lemmaInflowNeverExceeds: starting from any valid window, a take followed by refunds that
+// together return no more than was taken never lets the advertised total exceed 2^31-1 and
+// never loses credit (C10, per-window conservation).
+//
+//@ lemma
+//@ requires f != nil && inflowOK(f.avail, f.unsent)
+//@ requires int64(a) + int64(b) <= int64(n)
+//@ ensures ok
+func lemmaInflowConservation(f *inflow, n uint32, a, b uint16) (ok bool) {
+	before := int64(f.avail) + int64(f.unsent)
+	if !f.take(n) {
+		return int64(f.avail)+int64(f.unsent) == before
+	}
+	s1 := f.add(int(a))
+	s2 := f.add(int(b))
+	after := int64(f.avail) + int64(f.unsent)
+	return after == before-int64(n)+int64(a)+int64(b) && after <= 1<<31-1 && s1 >= 0 && s2 >= 0 && f.avail >= 0
+}
+
+// ---------------------------------------------------------------------------
+// server.go: inbound DATA and window refunds (properties C10, C11)
+
+// Trusted contracts (assumed, listed in the evidence): the goroutine lock is a debug assertion;
+// writeFrame hands a frame to the write scheduler and does not touch the receive windows.
+//
+//@ func (goroutineLock).check(g)
+//@   trusted
+//@ func (*serverConn).writeFrame(sc, wr)
+//@   trusted
+//@   requires sc != nil
+//@   modifies *sc
+//@   preserves sc.inflow
+//@ func (*serverConn).countError(sc, name, err) (r)
+//@   trusted
+//@   ensures r == err
+//@ func (*pipe).Write(p, d) (n, err)
+//@   trusted
+//@   ensures 0 <= n && n <= len(d)
+//@   ensures err == nil ==> n == len(d)
+//@   modifies *p
+//@ func (*pipe).CloseWithError(p, err)
+//@   trusted
+//@   modifies *p
+//@ func (*stream).endStream(st)
+//@   trusted
+//@   requires st != nil
+//@   modifies st.state
+//@ func (*DataFrame).Data(f) (d)
+//@   trusted
+//@   requires f != nil
+//@   ensures len(d) <= int(f.Length)
+//
+// sc.state returns the stream registered under the id, if any; every registered stream satisfies the
+// window invariant (object invariant of streams, assumed here).
+//
+//@ func (*serverConn).state(sc, streamID) (state, st)
+//@   trusted
+//@   requires sc != nil
+//@   ensures st != nil ==> st == sc.streams[streamID] && inflowOK(st.inflow.avail, st.inflow.unsent)
+//@   ensures st != nil ==> state == st.state && old(allocated(st))
+//@   ensures st != nil && state == stateOpen ==> st.body != nil
+//@   ensures state == stateIdle ==> st == nil
+
+//@ func (*serverConn).sendWindowUpdate(sc, st, n)
+//@   requires sc != nil && inflowOK(sc.inflow.avail, sc.inflow.unsent)
+//@   requires st != nil ==> inflowOK(st.inflow.avail, st.inflow.unsent)
+//@   requires 0 <= n && n <= 1<<31-1
+//@   requires st == nil ==> int64(n) + credit(sc.inflow.avail, sc.inflow.unsent) <= 1<<31-1
+//@   requires st != nil ==> int64(n) + credit(st.inflow.avail, st.inflow.unsent) <= 1<<31-1
+//@   ensures  st == nil ==> credit(sc.inflow.avail, sc.inflow.unsent) == old(credit(sc.inflow.avail, sc.inflow.unsent)) + int64(n)
+//@   ensures  st != nil ==> credit(st.inflow.avail, st.inflow.unsent) == old(credit(st.inflow.avail, st.inflow.unsent)) + int64(n)
+//@   ensures  st != nil ==> sc.inflow.avail == old(sc.inflow.avail) && sc.inflow.unsent == old(sc.inflow.unsent)
+//@   ensures  inflowOK(sc.inflow.avail, sc.inflow.unsent)
+//@   ensures  st != nil ==> inflowOK(st.inflow.avail, st.inflow.unsent)
+//@   ensures  sc.inflow.avail >= old(sc.inflow.avail)
+//@   ensures  st != nil ==> st.inflow.avail >= old(st.inflow.avail)
+//@   assert at call writeFrame: send > 0 && hastype($wr.write, writeWindowUpdate) && $wr.write.(writeWindowUpdate).n == uint32(send) && $wr.stream == st
+//@   modifies *sc, st.inflow
+//@
+//@ func (*serverConn).sendWindowUpdate32(sc, st, n)
+//@   inline
+//@
+//@ func (*serverConn).noteBodyRead(sc, st, n)
+//@   requires sc != nil && st != nil && inflowOK(sc.inflow.avail, sc.inflow.unsent) && inflowOK(st.inflow.avail, st.inflow.unsent)
+//@   requires 0 <= n && n <= 1<<31-1
+//@   requires int64(n) + credit(sc.inflow.avail, sc.inflow.unsent) <= 1<<31-1
+//@   requires int64(n) + credit(st.inflow.avail, st.inflow.unsent) <= 1<<31-1
+//@   ensures  credit(sc.inflow.avail, sc.inflow.unsent) == old(credit(sc.inflow.avail, sc.inflow.unsent)) + int64(n)
+//@   ensures  inflowOK(sc.inflow.avail, sc.inflow.unsent) && inflowOK(st.inflow.avail, st.inflow.unsent)
+//@   modifies *sc, st.inflow
+
+// processData: connection-level credit is conserved on every path (what is taken from the
+// connection window is either refunded at once or equals the bytes accepted into the body
+// pipe, which noteBodyRead refunds when the handler reads them); body bytes are only
+// written after both windows admitted the frame; a FLOW_CONTROL error is reported only when
+// a window is too small.
+//
+//@ func (*serverConn).processData(sc, f) (err)
+//@   requires sc != nil && f != nil && inflowOK(sc.inflow.avail, sc.inflow.unsent)
+//@   ghost kept += $r0 after call Write
+//@   assert at call Write: int64(f.Length) <= int64(old(sc.inflow.avail))
+//@   assert at call Write: int64(f.Length) <= int64(old(st.inflow.avail))
+//@   ensures  credit(sc.inflow.avail, sc.inflow.unsent) == old(credit(sc.inflow.avail, sc.inflow.unsent)) - ghost(kept)
+//@   ensures  inflowOK(sc.inflow.avail, sc.inflow.unsent)
+//@   ensures  (hastype(err, StreamError) && err.(StreamError).Code == ErrCodeFlowControl) ==> (int64(f.Length) > int64(old(sc.inflow.avail)) || int64(f.Length) > int64(old(sc.streams[f.StreamID].inflow.avail)))
+//@   ensures  int64(f.Length) > int64(old(sc.inflow.avail)) ==> ghost(kept) == 0 && err != nil
+//@   noframe
